@@ -12,6 +12,20 @@ CLAIMED = {
     note='Exact real arithmetic (no float rounding); sqrt as uninterpreted function with per-term axioms; shapes up to rank 4 with dims<=3; '
          'trusted: z3, jax.make_jaxpr, the vp/symjax evaluator (differentially validated against the real function on every run).',
     design='§3 C12', technique='jaxpr->SMT symbolic evaluation (Real domain), inductive step with ghost invariant, z3'),
+  'C02': dict(
+    text='Bounded SMT verification (z3, exact reals) of the jaxpr of the real distributed_shampoo(...).update: every output leaf is proved equal to an '
+         'independent reference model of the documented blocked-Shampoo math for ALL states, gradients, parameters and step counters, per configuration x '
+         'shape (pairwise option coverage); inverse roots are uninterpreted functions shared by code and reference. Counterexamples (and trace-time crashes of '
+         'the real code) are replayed on the real, unstubbed optimizer over gradient histories from init before being reported.',
+    note='Exact real arithmetic; root routine abstracted (padding-invariance assumed, body is C01); bounded set of configurations/shapes (rank<=3, dims<=5); '
+         'trusted: z3, jax.make_jaxpr, evaluator (differentially validated on each run), the reference model in vp/props/ds_ref.py.',
+    design='§3 C02', technique='jaxpr->SMT symbolic evaluation (Real domain) vs reference model, UF-abstracted roots, lazy case split, z3'),
+  'C04': dict(
+    text='Bounded SMT verification with a symbolic step counter (0..2^31-2): z3 proves on the real update jaxprs that statistics / preconditioners / metrics '
+         'are term-identical off-schedule, that refreshed preconditioners are gate(ROOT(statistics after this step)), counter+1, and the warm-up contract '
+         '(reference model and self-composition with start=never/start=0), for every (s,q,t0) of the grid; each unchanged-claim has an on-step reachability twin.',
+    note='Exact real arithmetic: bit-identity is proved as term identity (state passed through unchanged); counter overflow excluded; roots abstracted as UFs.',
+    design='§3 C04', technique='jaxpr->SMT symbolic evaluation with symbolic step counter, z3 (LIA+NRA+UF)'),
 }
 NA = {
   'C07': 'decided by tracing each configuration (abstract evaluation), no input/step/state variable is left for a solver to range over; '
